@@ -171,6 +171,11 @@ package auth
 // Summaries without postconditions keep NewAuthenticatorMux's paths few; they claim nothing.
 //@ func NewAuthenticator(config Configuration, optionFuncs ...func(*Authenticator) error) (*Authenticator, error)
 //@   modifies everything
+//@   let D = config.AuthorizeConfig.ProxyConfig.Domains
+//@   sink [C07] root_domains_are_the_configured_ones_each_behind_a_dot: newMux requires len($arg0.ProxyRootDomains) == old(len(D)) && forall i :: 0 <= i && i < old(len(D)) ==> $arg0.ProxyRootDomains[i] == (hasPrefix(old(D[i]), ".") ? old(D[i]) : "." + old(D[i]))
+//@   loop 1
+//@     invariant len(proxyRootDomains) == $i
+//@     invariant forall j :: 0 <= j && j < $i ==> proxyRootDomains[j] == (hasPrefix(D[j], ".") ? D[j] : "." + D[j])
 //@   sink [C08] gates_are_built_over_the_configured_proxy_credentials: newMux requires $arg0.ProxyClientID == old(config.ClientConfigs["proxy"].ID) && $arg0.ProxyClientSecret == old(config.ClientConfigs["proxy"].Secret)
 //@ func newProvider(pc ProviderConfig, sc SessionConfig) (providers.Provider, error)
 //@   modifies everything
